@@ -462,7 +462,7 @@ type schedRun struct {
 	gpumem     int           // `gpumem`
 	routedWait int           // scheduleRunner calls that have not returned
 	inWindow   bool
-	spell      int   // spelling of the environment values (`envspell`)
+	spell      int // spelling of the environment values (`envspell`)
 	mutexWho   string
 	mutexSince int64 // wall clock (us) at which goroutines were first seen parked on a mutex
 }
